@@ -11,6 +11,8 @@ tier = sys.argv[4] if len(sys.argv) > 4 else "quick"
 t0 = time.time()
 viol, unsup, st = run.run_scenario(prog, fn, P, tier, 200000, 600, attribute_all=(len(sys.argv) > 5))
 print("scenario %s P=%s: paths=%d sleep_pruned=%d infeasible=%d smt=%d steps=%d trunc=%s wall=%.1fs" % (sys.argv[1], P, st.paths, st.sleep_pruned, st.infeasible, st.smt_queries, st.steps, st.truncated, time.time() - t0))
+for kid, e in (getattr(st, "known", None) or {}).items():
+    print("KNOWN", kid, e["count"], e["message"][:300])
 for v in viol[:2]:
     print("VIOLATION", v.prop, v.msg)
     for e in (v.detail or {}).get("events", [])[-45:]:
